@@ -64,11 +64,14 @@ struct RefBlock {
     bool droppedLeadingLines = false;  ///< whitespace-preceded lines before the first field (RFC 9112 2.2: ignore or reject)
     bool nulOnlyInDroppedLines = false;
     bool crOnlyLineOnlyInDroppedLines = false;
+    bool crOnlyLineFoldedAway = false;
     bool crOnlyLinesAllBeforeContinuation = false; ///< the only non-field lines are CR-only lines followed by a continuation line ///< every CR-only line sits among those whitespace-preceded first lines
     bool anyFold = false, anyBareCr = false, anyLfOnly = false, anyDuplicate = false, anyWsBeforeColon = false, anyEmptyValue = false, anyEdgeVtFf = false;
 };
 
-static RefBlock refParse(const std::string &raw, const bool request)
+/// \param foldOverCrOnlyLines read "CR-only line + continuation line" the way Http1::Parser::unfoldMime() does (as
+///        part of one obs-fold); only used to attribute an acceptance to that known defect class
+static RefBlock refParse(const std::string &raw, const bool request, const bool foldOverCrOnlyLines = false)
 {
     RefBlock b;
     std::vector<std::string> lines;
@@ -89,12 +92,17 @@ static RefBlock refParse(const std::string &raw, const bool request)
     std::vector<Logical> logical;
     bool sawField = false;
     bool crOnlyInDropped = false, crOnlyInKept = false, crOnlyStandalone = false, notAFieldOther = false;
-    for (const auto &line : lines) {
+    for (size_t li = 0; li < lines.size(); ++li) {
+        const std::string &line = lines[li];
         std::string content = line;
         if (!content.empty() && content.back() == '\r') content.pop_back();
         const bool hasNul = content.find('\0') != std::string::npos;
         bool onlyCr = !content.empty();
         for (const char ch : content) if (ch != '\r') onlyCr = false;
+        if (foldOverCrOnlyLines && onlyCr && sawField && li + 1 < lines.size() && !lines[li + 1].empty() && isWsp(static_cast<unsigned char>(lines[li + 1][0]))) {
+            b.crOnlyLineFoldedAway = true;
+            continue;
+        }
         if (onlyCr) crOnlyLine = true;
         if (onlyCr && sawField) crOnlyInKept = true;
 
@@ -336,7 +344,8 @@ static vp::Verdict check(const Case &c, vp::Ctx &ctx)
             // was it the whitespace-preceded-line rule that swallowed the CR-only line?
             return vp::fail("accepted:cr-only-line-in-request:as-first-line", "block " + vp::esc(c.block.substr(0, 80)));
         }
-        if ((why == "cr-only-line-in-request" || why == "line-is-not-a-field") && ref.crOnlyLinesAllBeforeContinuation)
+        const RefBlock squidView = refParse(c.block, request, true);
+        if (squidView.crOnlyLineFoldedAway && squidView.mustReject.empty())
             return vp::fail("accepted:cr-only-line:unfolded-into-the-following-continuation-line", "block " + vp::esc(c.block.substr(0, 80)));
         return vp::fail("accepted:" + why, "block " + vp::esc(c.block.substr(0, 120)));
     }
